@@ -141,13 +141,25 @@ def Err.str : Err → String
   | .notfound => "notfound" | .denied => "denied" | .unauth => "unauth" | .precond => "precond"
   | .invalid => "invalid" | .exists_ => "exists" | .funds => "funds" | .unknown => "unknown"
 
-structure State where
-  now : Nat
-  p : Params
+/-- the Dym-Name records and their three reverse indexes -/
+structure NameStore where
   names : AMap Name DymName
   ownIdx : Idx Acct
   cfgIdx : Idx Addr
   fbIdx : Idx Nat
+  deriving Repr, Inhabited
+
+/-- RollApps (x/rollapp, as far as x/dymns reads them) and the alias <-> RollApp maps -/
+structure AliasStore where
+  rollapps : AMap Chain Rollapp
+  aliasTo : AMap AliasId Chain
+  aliasesOf : AMap Chain (List AliasId)
+  deriving Repr, Inhabited
+
+structure State where
+  now : Nat
+  p : Params
+  ns : NameStore
   nameSO : AMap Name SellOrder
   aliasSO : AMap AliasId SellOrder
   bos : AMap Nat BuyOrder
@@ -155,9 +167,7 @@ structure State where
   boBuyer : Idx Acct
   boName : Idx Name
   boAlias : Idx AliasId
-  rollapps : AMap Chain Rollapp
-  aliasTo : AMap AliasId Chain
-  aliasesOf : AMap Chain (List AliasId)
+  al : AliasStore
   bal : AMap Acct Nat
   modBal : Nat
   deriving Repr, Inhabited
@@ -167,9 +177,9 @@ def Params.default : Params :=
     priceExtends := 1, nameSteps := [1], aliasSteps := [1], chainAliases := [] }
 
 def State.init : State :=
-  { now := 0, p := Params.default, names := [], ownIdx := [], cfgIdx := [], fbIdx := [], nameSO := [],
+  { now := 0, p := Params.default, ns := ⟨[], [], [], []⟩, nameSO := [],
     aliasSO := [], bos := [], boCount := 0, boBuyer := [], boName := [], boAlias := [],
-    rollapps := [], aliasTo := [], aliasesOf := [], bal := [], modBal := 0 }
+    al := ⟨[], [], []⟩, bal := [], modBal := 0 }
 
 abbrev M := Except Err
 
@@ -196,15 +206,7 @@ def payAndBurn (s : State) (a : Acct) (amt : Nat) : M State :=
 
 /-! ## Dym-Name records and the reverse-mapping hooks -/
 
-def getName (s : State) (n : Name) : Option DymName := AMap.get s.names n
-
 def DymName.expired (d : DymName) (now : Nat) : Bool := d.expireAt < now
-
-/-- `GetDymNameWithExpirationCheck` -/
-def getNameLive (s : State) (n : Name) : Option DymName :=
-  match getName s n with
-  | some d => if d.expired s.now then none else some d
-  | none => none
 
 def Config.isDefault (c : Config) : Bool := c.chain = 0 ∧ c.path = 0
 
@@ -219,42 +221,78 @@ def DymName.cfgAddrs (d : DymName) : List Addr := d.revConfigs.map (·.value)
 /-- keys of `fallbackAddressesToConfigs` (account bytes of the default config's value) -/
 def DymName.fbAddrs (d : DymName) : List Nat := (d.revConfigs.filter Config.isDefault).map (·.value.acct)
 
+namespace NameStore
+
+def get (ns : NameStore) (n : Name) : Option DymName := AMap.get ns.names n
+
 /-- `BeforeDymNameOwnerChanged` -/
-def beforeOwner (s : State) (n : Name) : State :=
-  match getName s n with
-  | none => s
-  | some d => { s with ownIdx := s.ownIdx.remove d.owner n }
+def beforeOwner (ns : NameStore) (n : Name) : NameStore :=
+  match ns.get n with
+  | none => ns
+  | some d => { ns with ownIdx := ns.ownIdx.remove d.owner n }
 
 /-- `AfterDymNameOwnerChanged` -/
-def afterOwner (s : State) (n : Name) : M State :=
-  match getName s n with
+def afterOwner (ns : NameStore) (n : Name) : M NameStore :=
+  match ns.get n with
   | none => .error .notfound
-  | some d => .ok { s with ownIdx := s.ownIdx.add d.owner n }
+  | some d => .ok { ns with ownIdx := ns.ownIdx.add d.owner n }
 
 /-- `BeforeDymNameConfigChanged` -/
-def beforeConfig (s : State) (n : Name) : State :=
-  match getName s n with
-  | none => s
+def beforeConfig (ns : NameStore) (n : Name) : NameStore :=
+  match ns.get n with
+  | none => ns
   | some d =>
-    { s with cfgIdx := d.cfgAddrs.foldl (fun i a => i.remove a n) s.cfgIdx,
-             fbIdx := d.fbAddrs.foldl (fun i a => i.remove a n) s.fbIdx }
+    { ns with cfgIdx := d.cfgAddrs.foldl (fun i a => i.remove a n) ns.cfgIdx,
+              fbIdx := d.fbAddrs.foldl (fun i a => i.remove a n) ns.fbIdx }
 
 /-- `AfterDymNameConfigChanged` -/
-def afterConfig (s : State) (n : Name) : M State :=
-  match getName s n with
+def afterConfig (ns : NameStore) (n : Name) : M NameStore :=
+  match ns.get n with
   | none => .error .notfound
   | some d =>
-    .ok { s with cfgIdx := d.cfgAddrs.foldl (fun i a => i.add a n) s.cfgIdx,
-                 fbIdx := d.fbAddrs.foldl (fun i a => i.add a n) s.fbIdx }
+    .ok { ns with cfgIdx := d.cfgAddrs.foldl (fun i a => i.add a n) ns.cfgIdx,
+                  fbIdx := d.fbAddrs.foldl (fun i a => i.add a n) ns.fbIdx }
 
 /-- `SetDymName` (record validation is established by the callers' checks) -/
-def setName (s : State) (n : Name) (d : DymName) : State := { s with names := AMap.set s.names n d }
+def set (ns : NameStore) (n : Name) (d : DymName) : NameStore := { ns with names := AMap.set ns.names n d }
 
 /-- `DeleteDymName` -/
-def deleteName (s : State) (n : Name) : State :=
-  let s := beforeOwner s n
-  let s := beforeConfig s n
-  { s with names := AMap.del s.names n }
+def delete (ns : NameStore) (n : Name) : NameStore :=
+  let ns := beforeOwner ns n
+  let ns := beforeConfig ns n
+  { ns with names := AMap.del ns.names n }
+
+/-- set a record whose owner and configuration may both have changed, then run both After hooks -/
+def setAfterBoth (ns : NameStore) (n : Name) (d : DymName) : M NameStore := do
+  let ns := set ns n d
+  let ns ← afterOwner ns n
+  afterConfig ns n
+
+/-- a config change on a stored record: Before hook, set, After hook -/
+def setConfigChanged (ns : NameStore) (n : Name) (d : DymName) : M NameStore := do
+  let ns := beforeConfig ns n
+  let ns := set ns n d
+  afterConfig ns n
+
+end NameStore
+
+def getName (s : State) (n : Name) : Option DymName := s.ns.get n
+
+/-- `GetDymNameWithExpirationCheck` -/
+def getNameLive (s : State) (n : Name) : Option DymName :=
+  match getName s n with
+  | some d => if d.expired s.now then none else some d
+  | none => none
+
+def setName (s : State) (n : Name) (d : DymName) : State := { s with ns := s.ns.set n d }
+
+def setNameAfterBoth (s : State) (n : Name) (d : DymName) : M State := do
+  let ns ← s.ns.setAfterBoth n d
+  pure { s with ns := ns }
+
+def setNameConfigChanged (s : State) (n : Name) (d : DymName) : M State := do
+  let ns ← s.ns.setConfigChanged n d
+  pure { s with ns := ns }
 
 /-- `RefundBid` -/
 def refundBid (s : State) (b : Bid) : M State := fromModule s b.bidder b.price
@@ -270,13 +308,7 @@ def pruneName (s : State) (n : Name) : M State := do
       pure { s with nameSO := AMap.del s.nameSO n }
   match getName s n with
   | none => pure s
-  | some _ => pure (deleteName s n)
-
-/-- set a record whose owner and configuration may both have changed, then run both After hooks -/
-def setNameAfterBoth (s : State) (n : Name) (d : DymName) : M State := do
-  let s := setName s n d
-  let s ← afterOwner s n
-  afterConfig s n
+  | some _ => pure { s with ns := s.ns.delete n }
 
 /-! ## prices -/
 
@@ -353,16 +385,16 @@ def setController (s : State) (a : Acct) (n : Name) (c : Acct) : M State := do
     chk (decide (d.controller ≠ c)) .invalid
     pure (setName s n { d with controller := c })
 
-def isRollapp (s : State) (c : Chain) : Bool := (AMap.get s.rollapps c).isSome
+def isRollapp (s : State) (c : Chain) : Bool := (AMap.get s.al.rollapps c).isSome
 
 def isCreator (s : State) (c : Chain) (a : Acct) : Bool :=
-  match AMap.get s.rollapps c with
+  match AMap.get s.al.rollapps c with
   | some r => r.owner = a
   | none => false
 
 /-- `GetRollAppBech32Prefix` (0 = not found) -/
 def rollappHrp (s : State) (c : Chain) : Nat :=
-  match AMap.get s.rollapps c with
+  match AMap.get s.al.rollapps c with
   | some r => r.hrp
   | none => 0
 
@@ -377,12 +409,6 @@ def upsertConfig : List Config → Config → List Config
 def removeConfig : List Config → Chain → Path → List Config
   | [], _, _ => []
   | x :: xs, ch, p => if sameId x ch p then xs else x :: removeConfig xs ch p
-
-/-- a config change on a stored record: Before hook, set, After hook -/
-def setNameConfigChanged (s : State) (n : Name) (d : DymName) : M State := do
-  let s := beforeConfig s n
-  let s := setName s n d
-  afterConfig s n
 
 /-- `MsgUpdateResolveAddress`; `value = none` is the delete form (empty `ResolveTo`).
     `emptyChain`: the host chain was given as the empty chain-id (then ValidateBasic already
@@ -455,9 +481,7 @@ def completeNameSO (s : State) (n : Name) : M State := do
       | none => .error .precond
       | some b =>
         let s ← fromModule s d.owner b.price
-        let s := { s with nameSO := AMap.del s.nameSO n }
-        let s := beforeOwner s n
-        let s := beforeConfig s n
+        let s := { s with nameSO := AMap.del s.nameSO n, ns := (s.ns.beforeOwner n).beforeConfig n }
         setNameAfterBoth s n { d with owner := b.bidder, controller := b.bidder, configs := [], contact := 0 }
 
 /-- ValidateBasic of a new sell order -/
@@ -640,39 +664,59 @@ def acceptNameBO (s : State) (a : Acct) (id : Nat) (bo : BuyOrder) (minAccept : 
 
 def reserved (p : Params) (l : AliasId) : Bool := p.chainAliases.any (fun r => r.2.contains l)
 
-def aliasesOf (s : State) (c : Chain) : List AliasId := (AMap.get s.aliasesOf c).getD []
+namespace AliasStore
 
-/-- `CanUseAliasForNewRegistration` (alias texts are never RollApp ids: disjoint name spaces) -/
-def canUseAlias (s : State) (l : AliasId) : Bool := !reserved s.p l && (AMap.get s.aliasTo l).isNone
+def isRollapp (al : AliasStore) (c : Chain) : Bool := (AMap.get al.rollapps c).isSome
+
+def aliases (al : AliasStore) (c : Chain) : List AliasId := (AMap.get al.aliasesOf c).getD []
 
 /-- `SetAliasForRollAppId` -/
-def setAlias (s : State) (c : Chain) (l : AliasId) : M State := do
-  chk (isRollapp s c) .invalid
-  chk (AMap.get s.aliasTo l).isNone .exists_
-  pure { s with aliasesOf := AMap.set s.aliasesOf c (aliasesOf s c ++ [l]), aliasTo := AMap.set s.aliasTo l c }
+def setAlias (al : AliasStore) (c : Chain) (l : AliasId) : M AliasStore := do
+  chk (al.isRollapp c) .invalid
+  chk (AMap.get al.aliasTo l).isNone .exists_
+  pure { al with aliasesOf := AMap.set al.aliasesOf c (al.aliases c ++ [l]), aliasTo := AMap.set al.aliasTo l c }
 
 /-- `RemoveAliasFromRollAppId` -/
-def removeAlias (s : State) (c : Chain) (l : AliasId) : M State := do
-  chk (isRollapp s c) .invalid
-  match AMap.get s.aliasTo l with
+def removeAlias (al : AliasStore) (c : Chain) (l : AliasId) : M AliasStore := do
+  chk (al.isRollapp c) .invalid
+  match AMap.get al.aliasTo l with
   | none => .error .notfound
   | some c' =>
     chk (decide (c' = c)) .denied
-    let rest := (aliasesOf s c).filter (· ≠ l)
-    chk (decide (rest.length ≠ (aliasesOf s c).length)) .notfound
-    pure { s with aliasesOf := if rest = [] then AMap.del s.aliasesOf c else AMap.set s.aliasesOf c rest,
-                  aliasTo := AMap.del s.aliasTo l }
+    let rest := (al.aliases c).filter (· ≠ l)
+    chk (decide (rest.length ≠ (al.aliases c).length)) .notfound
+    pure { al with aliasesOf := if rest = [] then AMap.del al.aliasesOf c else AMap.set al.aliasesOf c rest,
+                   aliasTo := AMap.del al.aliasTo l }
 
 /-- `MoveAliasToRollAppId` -/
-def moveAlias (s : State) (src : Chain) (l : AliasId) (dst : Chain) : M State := do
-  chk (isRollapp s src) .invalid
-  chk (isRollapp s dst) .invalid
-  match AMap.get s.aliasTo l with
+def moveAlias (al : AliasStore) (src : Chain) (l : AliasId) (dst : Chain) : M AliasStore := do
+  chk (al.isRollapp src) .invalid
+  chk (al.isRollapp dst) .invalid
+  match AMap.get al.aliasTo l with
   | none => .error .notfound
   | some c =>
     chk (decide (c = src)) .denied
-    let s ← removeAlias s src l
-    setAlias s dst l
+    let al ← al.removeAlias src l
+    al.setAlias dst l
+
+end AliasStore
+
+def aliasesOf (s : State) (c : Chain) : List AliasId := s.al.aliases c
+
+/-- `CanUseAliasForNewRegistration` (alias texts are never RollApp ids: disjoint name spaces) -/
+def canUseAlias (s : State) (l : AliasId) : Bool := !reserved s.p l && (AMap.get s.al.aliasTo l).isNone
+
+def setAlias (s : State) (c : Chain) (l : AliasId) : M State := do
+  let al ← s.al.setAlias c l
+  pure { s with al := al }
+
+def removeAlias (s : State) (c : Chain) (l : AliasId) : M State := do
+  let al ← s.al.removeAlias c l
+  pure { s with al := al }
+
+def moveAlias (s : State) (src : Chain) (l : AliasId) (dst : Chain) : M State := do
+  let al ← s.al.moveAlias src l dst
+  pure { s with al := al }
 
 /-- `registerAliasForRollApp`: every failure is reported as ErrUnknown joined with the cause; the
     harness reports insufficient funds as `funds` -/
@@ -686,14 +730,15 @@ def registerAliasFor (s : State) (c : Chain) (a : Acct) (l : AliasId) (cost : Na
     `RollappCreated` hook registers the (mandatory) alias -/
 def createRollapp (s : State) (a : Acct) (c : Chain) (hrp : Nat) (l : AliasId) : M State := do
   chk (!isRollapp s c) .exists_
-  let s := { s with rollapps := AMap.set s.rollapps c ⟨a, hrp⟩ }
+  let al := s.al
+  let s := { s with al := { al with rollapps := AMap.set al.rollapps c ⟨a, hrp⟩ } }
   chk (canUseAlias s l) .exists_
   registerAliasFor s c a l (aliasPrice s.p l)
 
 /-- `MsgRegisterAlias` -/
 def registerAlias (s : State) (a : Acct) (c : Chain) (l : AliasId) (pay : Nat) : M State := do
   chk (decide (pay ≠ 0)) .invalid
-  match AMap.get s.rollapps c with
+  match AMap.get s.al.rollapps c with
   | none => .error .notfound
   | some r =>
     chk (decide (r.owner = a)) .denied
@@ -710,10 +755,10 @@ def completeAliasSO (s : State) (l : AliasId) : M State := do
     match so.bid with
     | none => .error .precond
     | some b =>
-      match AMap.get s.aliasTo l with
+      match AMap.get s.al.aliasTo l with
       | none => .error .notfound
       | some src =>
-        match AMap.get s.rollapps src with
+        match AMap.get s.al.rollapps src with
         | none => .error .notfound
         | some r =>
           chk (isRollapp s b.dst) .invalid
@@ -727,7 +772,7 @@ def placeAliasSO (s : State) (a : Acct) (l : AliasId) (min sell : Nat) : M State
   soBasic min sell
   chk s.p.tradeAlias .precond
   chk (!reserved s.p l) .denied
-  match AMap.get s.aliasTo l with
+  match AMap.get s.al.aliasTo l with
   | none => .error .notfound
   | some src =>
     chk (isCreator s src a) .denied
@@ -737,7 +782,7 @@ def placeAliasSO (s : State) (a : Acct) (l : AliasId) (min sell : Nat) : M State
 
 /-- `MsgCancelSellOrder`, type Alias -/
 def cancelAliasSO (s : State) (a : Acct) (l : AliasId) : M State := do
-  match AMap.get s.aliasTo l with
+  match AMap.get s.al.aliasTo l with
   | none => .error .notfound
   | some src =>
     chk (isCreator s src a) .denied
@@ -756,7 +801,7 @@ def completeAliasSOMsg (s : State) (a : Acct) (l : AliasId) : M State := do
     | none => .error .precond
     | some b =>
       chk (so.finished s.now) .precond
-      match AMap.get s.aliasTo l with
+      match AMap.get s.al.aliasTo l with
       | none => .error .notfound
       | some src =>
         chk (isCreator s src a || decide (b.bidder = a)) .denied
@@ -769,7 +814,7 @@ def completeAliasSOMsg (s : State) (a : Acct) (l : AliasId) : M State := do
 def validateAliasDst (s : State) (a : Acct) (l : AliasId) (dst : Chain) : M Unit := do
   chk (isRollapp s dst) .invalid
   chk (isCreator s dst a) .denied
-  match AMap.get s.aliasTo l with
+  match AMap.get s.al.aliasTo l with
   | none => .error .notfound
   | some src =>
     chk (decide (dst ≠ src)) .invalid
@@ -803,11 +848,11 @@ def placeAliasBO (s : State) (a : Acct) (l : AliasId) (offer : Nat) (cont : Opti
 def acceptAliasBO (s : State) (a : Acct) (id : Nat) (bo : BuyOrder) (minAccept : Nat) : M State := do
   chk s.p.tradeAlias .denied
   chk (!reserved s.p bo.asset) .denied
-  match AMap.get s.aliasTo bo.asset with
+  match AMap.get s.al.aliasTo bo.asset with
   | none => .error .notfound
   | some src =>
     chk (isCreator s src a) .denied
-    match AMap.get s.rollapps src with
+    match AMap.get s.al.rollapps src with
     | none => .error .notfound
     | some r =>
       chk (decide (bo.buyer ≠ a)) .denied
@@ -897,7 +942,7 @@ def run (s : State) (ops : List Op) : State := ops.foldl step s
 
 /-- `GetDymNamesOwnedBy` (ids) -/
 def ownedBy (s : State) (a : Acct) : List Name :=
-  (s.ownIdx.lookup a).filter (fun n => match getNameLive s n with
+  (s.ns.ownIdx.lookup a).filter (fun n => match getNameLive s n with
     | some d => d.owner = a
     | none => false)
 
@@ -916,7 +961,7 @@ def resolveHandle (s : State) (h : Handle) : Option Chain :=
     | none =>
       match h with
       | .chain c => if isRollapp s c then some c else none
-      | .alias l => AMap.get s.aliasTo l
+      | .alias l => AMap.get s.al.aliasTo l
 
 def findConfig (d : DymName) (chain : Chain) (path : Path) : Option Addr :=
   (d.configs.find? (sameId · chain path)).map (·.value)
@@ -967,12 +1012,12 @@ def liveNames (s : State) (ns : List Name) : List (Name × DymName) :=
 /-- `ReverseResolveDymNameAddress` for a bech32 input; results before pretty-printing:
     (path, name) pairs, all on the working chain -/
 def reverseRaw (s : State) (addr : Addr) (wc : Chain) : List (Path × Name) :=
-  let byConfig := (liveNames s (s.cfgIdx.lookup addr)).flatMap (fun (n, d) =>
+  let byConfig := (liveNames s (s.ns.cfgIdx.lookup addr)).flatMap (fun (n, d) =>
     (d.revConfigs.filter (fun c => c.value = addr ∧ c.chain = wc)).map (fun c => (c.path, n)))
   if !byConfig.isEmpty then byConfig
   else if wc ≠ 0 ∧ !isRollapp s wc then []
   else
-    (liveNames s (s.fbIdx.lookup addr.acct)).filterMap (fun (n, d) =>
+    (liveNames s (s.ns.fbIdx.lookup addr.acct)).filterMap (fun (n, d) =>
       if (d.revConfigs.filter (fun c => c.isDefault ∧ c.value.acct = addr.acct)).isEmpty then none else some (0, n))
 
 def reverse (s : State) (addr : Addr) (wc : Chain) : List (Path × Name × Handle) :=
